@@ -213,6 +213,11 @@ SetInput(xs, clr) == /\ CanAct /\ Clean /\ "set_input" \in InputOps
 ClearInput == /\ CanAct /\ Clean /\ "clear_input" \in InputOps /\ inputs' = <<>> /\ q' = <<>>
               /\ UNCHANGED <<raw, lines, written, clearedAt>> /\ Quiet(A("clear_input", 0, <<>>))
 
+\* set_input(get_input()): the instructor hands the queue back as it is (typically with something appended): the queue
+\* is what it was
+SetInputSelf == /\ CanAct /\ Clean /\ "set_input_self" \in InputOps
+                /\ UNCHANGED <<inputs, q, raw, lines, written, clearedAt>> /\ Quiet(A("set_input_self", 0, <<>>))
+
 (* ---------- files ---------- *)
 SeqsUpTo(S, n) == UNION {[1..k -> S] : k \in 0..n}
 TopProgs == [effs : SeqsUpTo(EffTokens, MaxEff), mode : Modes]
@@ -235,7 +240,7 @@ Init == /\ file \in Files
 
 Next == \/ Run \/ RunReal \/ (\E i \in 1..MaxFns : Call(i) \/ Evaluate(i))
         \/ (\E g \in Givens : RunIn(g) \/ \E i \in 1..MaxFns : CallIn(i, g))
-        \/ ClearOutput \/ ClearInput
+        \/ ClearOutput \/ ClearInput \/ SetInputSelf
         \/ \E xs \in {<<"i1">>, <<"i1", "i2">>, <<>>}, c \in BOOLEAN : SetInput(xs, c)
 Spec == Init /\ [][Next]_vars
 
